@@ -298,7 +298,7 @@ def main():
 
     if harmless:
         print("\n== harmless rewrites: facts that change (must be none with the translators under test)")
-        print(f"   {'patch':<14} {'before (original translators)':<70} after")
+        print(f"   {'patch':<34} {'before (original translators)':<70} after")
     for name, p in harmless:
         row = dict(name=name)
         cols = []
@@ -316,7 +316,7 @@ def main():
                 row["detail"] = {k: [str(v[0])[:300], str(v[1])[:300]] for k, v in ch.items()}
         result["harmless"].append(row)
         if len(cols) == 1: cols = ["(skipped)"] + cols
-        print(f"   {name:<14} {cols[0]:<70} {cols[1]}")
+        print(f"   {name:<34} {cols[0]:<70} {cols[1]}")
         if a.v and row.get("detail"):
             for k, (x, y) in row["detail"].items():
                 print(f"        {k}\n          - {x}\n          + {y}")
